@@ -662,20 +662,7 @@ class Share(object):
         Reorder values in ._dict based on the other odict.
         Raise ValueError if other is not an odict
         """
-        if not isinstance(other, odict):
-            raise ValueError('other must be an odict')
-
-        if other is self:
-            #raise ValueError('other cannot be the same odict')
-            pass #updating with self makes no changes
-
-        dict.update(self, other)
-        keys = self._keys
-
-        for key in other:
-            if key in keys:
-                keys.remove(key)
-            keys.append(key)
+        self._data.__dict__.reorder(other)  # ._data.__dict__ is the odict that holds the fields
 
     def changeStore(self, store = None):  # store management
         """Replace .store """
